@@ -501,7 +501,8 @@ fn run(x: &X, mode: Mode) -> Option<Option<X>> {
         let sendable = match mode {
             Mode::InProc => true,
             Mode::H1 => wire_ok(target) && wire_ok(method),
-            Mode::H2 => wire_ok(target) && wire_ok(method) && target.starts_with(b"/"),
+            // (a CONNECT request has no `:path` in HTTP/2)
+            Mode::H2 => wire_ok(target) && wire_ok(method) && target.starts_with(b"/") && method != b"CONNECT",
         };
         if sendable {
             ops.push(Op::Req(method.to_vec(), target.to_vec(), kind));
